@@ -43,6 +43,8 @@ CLAIMED.update({
                 "the looked-up hash, returns the existing node on a hit (real forest::createReducedNode, all branches, unbounded node "
                 "size); EV+ edge values are normalised to one representative; the hash is a function of the pushed word sequence "
                 "(hash_stream grouping lemmas); edge equality is forest id + handle + value; terminal handles are injective. "
+                "BOUNDED stand-in (labelled bounded): the real unique_table::subtable find / add / remove / expand / shrink on up to 3 stored nodes "
+                "in 8 / 16 buckets with symbolic hashes and chain orders (U-utb). "
                 "BOUNDED stand-in (labelled bounded): the real unpacked_node::sort that createReducedNode runs on every sparse scratch node, on nodes "
                 "of up to 3 entries, multi-terminal (no edge array) and edge-valued (U-sortb; exposed a null dereference, fixed). "
                 "Partial: unique-table chains, packed-node duplicate test and every operation's use of these are unverified.",
@@ -90,7 +92,9 @@ CLAIMED.update({
     "C15": {
         "text": "Proof of the index-set lookup descent (dd_edge::getElemInt/getElemLong, real bodies, loop contracts): at every level the "
                 "largest position whose offset does not exceed the remaining index is chosen, only real nodes are unpacked (this "
-                "obligation exposed the crash on the empty set, fixed), negative indexes and the empty set fail, mismatches raise "
+                "obligation exposed the crash on the empty set, fixed), a level the index set skips (a variable with one value) is passed "
+                "without unpacking anything and every level is assigned exactly once (the contract first ASSUMED that index sets skip no level; "
+                "the assumption was false and hid a crash, fixed), negative indexes and the empty set fail, mismatches raise "
                 "the documented errors. The conversion (mdd2index_operation::_compute, recursive, checked against its own contract with "
                 "--enforce-contract-rec): the offset of child i is the number of members below the children before it, the stored "
                 "cardinality is the sum, a compute-table hit returns the cached node and its cardinality; getIndexSetCardinality returns "
